@@ -114,7 +114,7 @@ GROUPS = {
         ],
     },
     "scopestate": {
-        "import": "Haiway.Bridge.ScopeState", "open": "Haiway.MiniPy Haiway.Bridge.ScopeState Haiway.ScopeState",
+        "import": "Haiway.Bridge.ScopeStateEndToEnd", "open": "Haiway.MiniPy Haiway.Bridge.ScopeState Haiway.ScopeState",
         "defs": {
             "gState": Target("src/haiway/context/state.py", "ScopeState", "state", ["state", "default"], _SF, {},
                              containers={"self._state", "self._defaults"}, callables={"state": 120}),
@@ -134,6 +134,9 @@ GROUPS = {
              "    cases hx : w.ctorFailsWithException <;> ss_eval <;> (try simp_all [assocSet_cacheOfE_new])"),
             ("updated_refines", ["gUpdated"], "UpdatedRefines gUpdated",
              "intro d xs c w hb\n  unfold gUpdated\n  cases xs <;> ss_eval"),
+            # C01's nesting law restated of the regenerated terms (chains of `updated`, lookup on `stateOf frames`)
+            ("state_c01", ["gUpdated", "gState"], "NestingProps gUpdated gState",
+             "exact nestingProps_of_refines updated_refines state_lookup"),
             ("current_refines", ["gCurrent"], "CurrentRefines gCurrent",
              "intro ty dflt w hl\n  unfold gCurrent\n"
              "  cases hv : w.var <;> cases hr : w.stateResult\n"
